@@ -491,6 +491,21 @@ impl SimNet {
         }
     }
 
+    /// drop everything recorded or still queued (end of a run; see app.rs)
+    pub fn release_memory(&self) {
+        let mut g = self.inner.lock().unwrap();
+        g.heap.clear();
+        g.heap.shrink_to_fit();
+        g.log = Vec::new();
+        g.ledger = HashMap::new();
+        for ep in g.endpoints.values_mut() {
+            ep.queue.clear();
+            ep.queue.shrink_to_fit();
+            ep.waker = None;
+        }
+        g.pump_waker = None;
+    }
+
     pub fn mark_alt_validated(&self) {
         let now = self.now_ms();
         let mut g = self.inner.lock().unwrap();
